@@ -65,18 +65,23 @@ HeapStep(ev) ==
 
 JudgePool(ev, errs, cellm) ==
    LET n == Cardinality(plive')
-       e2 == errs \cup (IF ev.avail # pcap - n THEN {"avail"} ELSE {})
-                  \cup (IF ev.room # pcap - n THEN {"room"} ELSE {})
-                  \cup (IF ev.alloc # [i \in 1..pcap |-> B2I((i-1) \in plive')] THEN {"cell_is_allocated"} ELSE {})
-                  \cup (IF kind # "sop" /\ (ev.gl # Guard \/ ev.gr # Guard) THEN {"guard"} ELSE {})
+       e2 == errs \cup (IF ev.avail # pcap' - n THEN {"avail"} ELSE {})
+                  \cup (IF ev.room # pcap' - n THEN {"room"} ELSE {})
+                  \cup (IF ev.alloc # [i \in 1..pcap' |-> B2I((i-1) \in plive')] THEN {"cell_is_allocated"} ELSE {})
+                  \cup (IF kind # "sop" /\ (ev.gl # Guard \/ ev.gr # Guard \/ ev.g2 \notin {<<>>, Guard \o Guard}) THEN {"guard"} ELSE {})
        dr == IF cellm # -2 /\ ev.cell # cellm THEN {"impl_cell_order"} ELSE {}
    IN IF e2 # {} THEN Flag(l, SetToSeq(e2), [live |-> SetToSeq(plive'), model_cell |-> cellm]) /\ sync' = FALSE
       ELSE IF dr # {} THEN Flag(l, SetToSeq(dr), [model_cell |-> cellm]) /\ sync' = TRUE
       ELSE sync' = TRUE
 
 PoolStep(ev) ==
-   /\ UNCHANGED <<vars, mlive, pcap>>
-   /\ CASE ev.e = "PAlloc" ->
+   /\ UNCHANGED <<vars, mlive>>
+   /\ (ev.e # "PEngage" => UNCHANGED pcap)
+   /\ CASE ev.e = "PEngage" ->        \* a further zone of n2 cells given to the same pool (pool_engage may be called more than once)
+             /\ pcap' = pcap + ev.n2 /\ plive' = plive
+             /\ pl' = [free |-> [i \in 1..ev.n2 |-> pcap + ev.n2 - i] \o pl.free, cap |-> pcap + ev.n2]
+             /\ JudgePool(ev @@ [al |-> 0, cell |-> -2], {}, -2)
+        [] ev.e = "PAlloc" ->
              LET r == PoolAlloc(pl)
                  errs == IF Cardinality(plive) = pcap
                          THEN (IF ev.cell # -1 THEN {"allocated_beyond_capacity"} ELSE {})
